@@ -110,6 +110,15 @@ var audSeqs = func() [][]int {
 	return seqs
 }()
 
+// audSeqIndex finds a sequence's index in audSeqs.
+var audSeqIndex = func() map[string]int {
+	m := map[string]int{}
+	for i, s := range audSeqs {
+		m[fmt.Sprint(s)] = i
+	}
+	return m
+}()
+
 func audWeight(i int) int {
 	if i == 0 {
 		return 0
@@ -458,6 +467,25 @@ func runC03(c *core.Ctx) {
 				}
 				t.Outcome(harness.ErrClass(err))
 				judge(t, v, err, "C03/"+cf.entry, key)
+				// several AudienceRestrictions of which some name this SP: whether that suffices is not settled by the statement, but the
+				// answer cannot depend on the order in which the IdP wrote them
+				if seq := audSeqs[pt[5]]; len(seq) > 1 && cf.entry == "xml" {
+					rev := make([]int, len(seq))
+					for i := range seq {
+						rev[len(seq)-1-i] = seq[i]
+					}
+					if ri, ok := audSeqIndex[fmt.Sprint(rev)]; ok && ri != pt[5] {
+						pt2 := append([]int{}, pt...)
+						pt2[5] = ri
+						doc2 := buildDoc(pt2, cf.lay, cf.entitySet)
+						_, err2 := sp.ParseXMLResponse(doc2, []string{samlgen.ReqID}, harness.MustURL(cur))
+						t.Impl(1)
+						if (err == nil) != (err2 == nil) {
+							t.Fail("C03/audience-order-decides", "audience restrictions %s: accepted=%v; the same restrictions in reverse order: accepted=%v", audLabel(pt[5]), err == nil, err2 == nil)
+							t.Input("response_xml", string(doc))
+						}
+					}
+				}
 				if statusOnly && err != nil {
 					// a non-Success status on an otherwise valid response must be reported as such
 					st := statusVals[pt[6]]
